@@ -248,6 +248,27 @@ class Interp:
             s.pop()
         return r != z3.unsat
 
+    def as_static_tuple(self, st, v, max_len=8):
+        """components of a `Val` that the path condition proves to be a tuple of one fixed length (else None).  Sound: the
+        decomposition is used only when `pc => is_tuple(v) and len(v) == n` is proved (the definitions in force are added)."""
+        if self.prune_solver is None:
+            return None
+        items = Val.items(v.tree)
+        s = self.prune_solver
+        for n in range(0, max_len + 1):
+            fact = z3.And(Val.is_VTup(v.tree), core.vlist_has_len(items, n))
+            s.push()
+            try:
+                for c in st.pc:
+                    s.add(c)
+                s.add(z3.Not(fact))
+                r = s.check()
+            finally:
+                s.pop()
+            if r == z3.unsat:
+                return tuple(SV(ANY, core.vlist_nth(items, i)) for i in range(n))
+        return None
+
     # ------------------------------------------------------------------ helpers: values
     def lit(self, v):
         """python constant -> SV"""
@@ -1086,6 +1107,12 @@ class Interp:
             return
         if any(isinstance(x, SV) for x in (lo, hi, step)):
             raise Unsupported("symbolic slice bound")
+        if isinstance(base, SV) and base.kind.tag == "any":
+            # a scalar that the path condition forces to be a tuple of one fixed length: slice its components
+            st_t = self.as_static_tuple(st, base)
+            if st_t is not None:
+                yield st_t[lo:hi:step], st
+                return
         if isinstance(base, (tuple, list, str)):
             yield base[lo:hi:step], st
             return
